@@ -548,6 +548,13 @@ class Report:
         os.makedirs(EVIDENCE_DIR, exist_ok=True)
         os.makedirs(REPLAY_DIR, exist_ok=True)
         cov = dict(self.coverage)
+        if not cov.get("rule"):
+            cov["rule"] = ("obligations = headline theorems of lean/Edn/Properties/%s.lean, discharged = those that build and depend only on the allowed axioms. "
+                           "evaluations = protocol lines (documents, operation scripts, helper calls, fault schedules) generated from VERIF_SEED by vlib/props/%s.py "
+                           "(finite families enumerated completely, the rest drawn from the structured generators of vlib/gen.py) and sent to the real library; every one is "
+                           "compared with the Lean model's answer and/or the oracle's expectation. distinct_nontrivial = number of distinct cases by SHA-256 of the case text "
+                           "(a case is non-trivial when it reached the library and its output took part in a comparison; duplicates produced by the generators count once)."
+                           % (self.pid, self.pid.lower()))
         cov["distinct_nontrivial"] = len(self._distinct)
         cov["histogram"] = dict(sorted(self.hist.items()))
         cov["known_findings_seen"] = [c for c, _ in self.known_seen]
